@@ -91,9 +91,9 @@ def pp(e):
     if k == 'ovrl':
         return '@+:' + term(e[1])
     if k == 'const':
-        return '`' + e[1] + '`'
+        return ('```' + e[1] + '```') if '\n' in e[1] else ('`' + e[1] + '`')
     if k == 'alert':
-        return '^' * e[2] + '`' + e[1] + '`'
+        return '^' * e[2] + (('```' + e[1] + '```') if '\n' in e[1] else ('`' + e[1] + '`'))
     if k == 'void':
         return '()'
     if k == 'fail':
